@@ -1,3 +1,139 @@
-(* C07Theorems.v — the property theorems of C07 and nothing else. *)
+(* C07Theorems.v — the property theorems of C07 and nothing else.  Each is closed by `exact <lemma>` and
+   followed by Print Assumptions (audited by ./check on every run).
+   Vocabulary (C07Spec.v): frames nalus = concatenation of 4-byte-length-prefixed NAL units; expand r = the
+   per-byte clear(false)/protected(true) flags described by the sub-sample entries r; spec_mask = the flags the
+   property prescribes; ref_cenc = reference AES-CTR (counter block i = IV + i as a 128-bit big-endian integer)
+   xor-ed over the protected bytes in order, identity elsewhere.  E is ANY function from key and block to
+   16-byte blocks. *)
 From V.lib Require Import Base.
-From V.c07 Require Import C07Model.
+From V.c07 Require Import C07Model C07Spec C07RangeProofs C07CryptProofs C07FinalProofs.
+
+(* AppendProtectRange, every nrClear / nrProtected (65535, 65536, 131070, ... included) *)
+Theorem C07_append_protect_range : forall ssps c p,
+  exists r, append_protect_range ssps c p = Ok r /\
+            expand r = expand ssps ++ rep false c ++ rep true p /\
+            (Forall (fun e => ss_clear e < 65536) ssps -> Forall (fun e => ss_clear e < 65536) r).
+Proof. exact append_protect_range_final. Qed.
+Print Assumptions C07_append_protect_range.
+
+(* the sub-sample entries partition the sample exactly, clear counts fit 16 bits, protected counts are whole
+   blocks — for every NALU layout (AVC and HEVC: any isvideo) *)
+Theorem C07_partition : forall (isvideo : N -> bool) (hdr : list N -> res N) (nalus : list (list N)),
+  wf_nalus nalus = true ->
+  lenN (frames nalus) < 4294967296 ->
+  exists r, protect_ranges isvideo hdr Cenc (frames nalus) = Ok r /\
+            sumN (map (fun p => ss_clear p + ss_prot p) r) = lenN (frames nalus) /\
+            Forall (fun p => ss_clear p < 65536 /\ ss_prot p mod 16 = 0) r.
+Proof. exact partition_final. Qed.
+Print Assumptions C07_partition.
+
+(* cenc shape: byte-for-byte, the entries protect exactly the last prot_cenc(len) bytes of every video NALU and
+   nothing else (length fields, NAL headers, non-video NALUs clear); prot_cenc is positive iff len+4 >= 112, a
+   multiple of 16, leaves 96..111 bytes clear from the length field on, and protects every NALU longer than
+   127 bytes starting at most 127 bytes in *)
+Theorem C07_cenc_shape : forall (isvideo : N -> bool) (hdr : list N -> res N) (nalus : list (list N)),
+  wf_nalus nalus = true ->
+  lenN (frames nalus) < 4294967296 ->
+  (exists r, protect_ranges isvideo hdr Cenc (frames nalus) = Ok r /\
+             expand r = spec_mask isvideo (fun n => prot_cenc (lenN n)) nalus) /\
+  (forall L, (0 < prot_cenc L <-> 112 <= L + 4) /\
+             prot_cenc L mod 16 = 0 /\
+             prot_cenc L <= L /\
+             (112 <= L + 4 -> 96 <= L + 4 - prot_cenc L /\ L + 4 - prot_cenc L <= 111) /\
+             (127 < L -> 0 < prot_cenc L /\ L - prot_cenc L <= 127)).
+Proof. exact cenc_shape_final. Qed.
+Print Assumptions C07_cenc_shape.
+
+(* cbcs shape, parametric in the slice-header size function hs (guard hs n <= |n| explicit): the protected bytes
+   of a video NALU are exactly those after its slice header *)
+Theorem C07_cbcs_shape : forall (isvideo : N -> bool) (hdr : list N -> res N) (hs : list N -> N)
+                                (nalus : list (list N)),
+  wf_nalus nalus = true ->
+  lenN (frames nalus) < 4294967296 ->
+  (forall n, In n nalus -> first_is_video isvideo n = true -> hdr n = Ok (hs n) /\ hs n <= lenN n) ->
+  exists r, protect_ranges isvideo hdr Cbcs (frames nalus) = Ok r /\
+            expand r = spec_mask isvideo (fun n => lenN n - hs n) nalus /\
+            sumN (map (fun p => ss_clear p + ss_prot p) r) = lenN (frames nalus) /\
+            Forall (fun p => ss_clear p < 65536) r.
+Proof. exact cbcs_shape_final. Qed.
+Print Assumptions C07_cbcs_shape.
+
+(* incrementIV is big-endian addition of the block count modulo 2^(8|iv|): every IV length, every carry chain *)
+Theorem C07_iv_increment : forall iv ssps slen,
+  bytes_ok iv = true ->
+  be (increment_iv iv ssps slen) = (be iv + nr_enc_blocks ssps slen) mod 2 ^ (8 * lenN iv).
+Proof. exact iv_increment_final. Qed.
+Print Assumptions C07_iv_increment.
+
+Theorem C07_iv_increment_inplace : forall iv n,
+  bytes_ok iv = true ->
+  be (increment_iv_inplace iv n) = (be iv + n) mod 2 ^ (8 * lenN iv) /\
+  length (increment_iv_inplace iv n) = length iv.
+Proof. exact iv_increment_inplace_final. Qed.
+Print Assumptions C07_iv_increment_inplace.
+
+(* CryptSampleCenc = reference CTR over the protected bytes in order, identity elsewhere — for EVERY block
+   function E and every sub-sample map that fits the sample *)
+Theorem C07_matches_reference :
+  forall (E : list N -> list N -> list N) (key iv : list N) (ssps : list ssp) (sample : list N),
+  (forall k b, length (E k b) = 16%nat) ->
+  length iv = 16%nat -> bytes_ok iv = true -> key_ok key = true ->
+  sumN (map (fun p => ss_clear p + ss_prot p) ssps) <= lenN sample ->
+  lenN sample < 4294967296 ->
+  crypt_sample_cenc E key iv ssps sample = Ok (ref_cenc E key iv ssps sample).
+Proof. exact matches_reference_final. Qed.
+Print Assumptions C07_matches_reference.
+
+(* the per-sample loop of EncryptFragment (cenc): IV chain and no counter block used twice in a fragment *)
+Theorem C07_no_counter_reuse :
+  forall (E : list N -> list N -> list N) (protfunc : list N -> res (list ssp))
+         (key iv : list N) (samples : list (list N)) (encs : list enc_sample),
+  length iv = 16%nat -> bytes_ok iv = true ->
+  encrypt_samples_cenc E protfunc key iv samples = Ok encs ->
+  sumN (map blocks_of encs) < 2 ^ 128 ->
+  (forall i ei, nth_error encs i = Some ei ->
+     be (e_iv ei) = (be iv + sumN (map blocks_of (firstn i encs))) mod 2 ^ 128) /\
+  (forall e, aligned e -> prot_total e <= 16 * blocks_of e) /\
+  (forall i j ei ej t t',
+     (i < j)%nat -> nth_error encs i = Some ei -> nth_error encs j = Some ej ->
+     t < blocks_of ei -> t' < blocks_of ej ->
+     (be (e_iv ei) + t) mod 2 ^ 128 <> (be (e_iv ej) + t') mod 2 ^ 128).
+Proof. exact no_counter_reuse_final. Qed.
+Print Assumptions C07_no_counter_reuse.
+
+(* ---------------------------------------------------------------- the hypotheses are satisfiable *)
+Definition ex_nalus : list (list N) :=
+  [ [9; 240];                                  (* AUD, 2 bytes *)
+    101 :: repeat 171 139;                     (* IDR slice, 140 bytes: 4+140-96 = 48 -> 48 protected *)
+    [6; 5; 1; 128];                            (* SEI *)
+    65 :: repeat 3 106 ].                      (* non-IDR slice, 107 bytes: 111 < 112, clear *)
+
+Example ex_wf : wf_nalus ex_nalus = true /\ lenN (frames ex_nalus) < 4294967296.
+Proof. vm_compute. split; reflexivity. Qed.
+
+Example ex_ranges :
+  protect_ranges avc_is_video (fun _ => Err) Cenc (frames ex_nalus) = Ok [mkSsp 102 48; mkSsp 119 0].
+Proof. vm_compute. reflexivity. Qed.
+
+(* why the theorems ask for non-empty NAL units: a trailing empty NALU (length field 0) is not covered by the
+   entries (the Go loop stops at pos >= len-4); such a sample is not a NALU layout of the property *)
+Example ex_trailing_empty_nalu :
+  protect_ranges avc_is_video (fun _ => Err) Cenc (frames [[101; 1]; []]) = Ok [mkSsp 6 0] /\
+  lenN (frames [[101; 1]; []]) = 10.
+Proof. vm_compute. split; reflexivity. Qed.
+
+(* a block function satisfying the only hypothesis on E, and a run of the fragment loop with an ff..ff IV *)
+Definition ex_E (k b : list N) : list N := firstn 16 (xorl (b ++ repeat 0 16) (k ++ repeat 1 16)).
+
+Example ex_E_blocks : forall k b, length (ex_E k b) = 16%nat.
+Proof.
+  intros k b. unfold ex_E, xorl. rewrite firstn_length, map_length, combine_length, !app_length, !repeat_length. lia.
+Qed.
+
+Example ex_fragment :
+  exists encs,
+    encrypt_samples_cenc ex_E (protect_ranges avc_is_video (fun _ => Err) Cenc) (repeat 7 16) (repeat 255 16)
+      [frames ex_nalus; frames ex_nalus] = Ok encs /\
+    map e_iv encs = [repeat 255 16; repeat 0 15 ++ [2]] /\
+    sumN (map blocks_of encs) < 2 ^ 128.
+Proof. eexists. vm_compute. split; [reflexivity|]. split; reflexivity. Qed.
